@@ -61,6 +61,7 @@ type HarnessResult struct {
 	Violations   []Obligation   `json:"violations"`
 	Inconclusive []Obligation   `json:"inconclusive"`
 	Reaches      []ReachRec     `json:"reaches"`
+	Emits        []EmitRec      `json:"emits,omitempty"`
 	ReachCounts  map[string]int `json:"reach_counts"`
 	Aborts       map[string]int `json:"aborts"`
 	Labels       map[string]int `json:"labels"`
@@ -328,13 +329,14 @@ func (e *Engine) runOne(fn *ssa.Function, pkgPath string) HarnessResult {
 	t0 := time.Now()
 	e.obligations = nil
 	e.reaches = nil
+	e.emits = nil
 	e.aborts = map[string]int{}
 	e.reachSeen = map[string]int{}
 	e.pathsDone, e.pathsInfeas, e.violations, e.stop, e.panicChecks, e.untagged = 0, 0, 0, 0, 0, 0
 	q0, s0 := statQueries, statSolverNS
 	e.RunHarness(fn)
 	hr := HarnessResult{Harness: fn.Name(), Pkg: pkgPath, Paths: e.pathsDone, Infeasible: e.pathsInfeas, Aborts: e.aborts,
-		Reaches: e.reaches, ReachCounts: e.reachSeen, Labels: map[string]int{}}
+		Reaches: e.reaches, Emits: e.emits, ReachCounts: e.reachSeen, Labels: map[string]int{}}
 	seenViol := map[string]int{}
 	for _, o := range e.obligations {
 		hr.Obligations++
